@@ -74,7 +74,7 @@ None1 == {0}
 T_none == {<<1, 0>>}
 \* mode "edge": targets tm / 2^s with ODD tm (first exact at shift s), every s in 0..31
 EdgeTm_quick    == {1, 6962545}
-EdgeTm_thorough == {1, 3, 21845, 6962545, 1073741823}
+EdgeTm_thorough == {1, 3, 21845, 6962545, 16777215}
 EdgeS_all       == 0..31
 T_edge_quick    == {<<t, s>> : t \in EdgeTm_quick, s \in EdgeS_all}
 T_edge_thorough == {<<t, s>> : t \in EdgeTm_thorough, s \in EdgeS_all}
